@@ -8,6 +8,8 @@ fn usage() -> ! {
 }
 
 fn main() {
+    // C20's fresh-process comparison re-executes this binary with VERIF_C20_DUMP set.
+    verif_sim::props::c20::maybe_dump_and_exit();
     let args: Vec<String> = std::env::args().collect();
     if args.len() < 2 { usage(); }
     let id = args[1].to_uppercase();
